@@ -13,6 +13,8 @@ R08.4 the slot index is the CPR format bit 54, the stored fields are bits 55-71 
 R08.5 the NL table equals the closed form of DO-260B (58 boundaries), is strictly increasing and is used with `<`, default 1;
 R08.6 a position is produced only if the two latitude zones agree (NL(lat0) == NL(lat1));
 R08.8 the distance is stored under exactly the conditions of the position store (+ observer configured);
+R08.9 slot coherence: cpr_lat[F], cpr_lon[F] and cpr_time[F] are written under one condition that does not depend on the row's
+      previous contents (the time of a slot is the receive time of the fields in it);
 R08.7 observer: distance = haversine(row lat, row lon, observer lat, observer lon) with R = 6371; 'lat,lon' parsed in order.
 """
 import math
@@ -59,14 +61,15 @@ def run(facts, rep, tier):
     for rid, txt, k in [("R08.1", "position stores only under the pairing / range guards", "P"), ("R08.2", "10 s window term", "P"),
                         ("R08.3", "slot time = receive time of this update", "P"), ("R08.4", "slot index = bit 54; fields 55-71 / 72-88", "P"),
                         ("R08.5", "NL table == closed form", "P"), ("R08.6", "zone equality guards the result", "N"), ("R08.7", "observer / haversine wiring", "N"),
-                        ("R08.8", "distance stored whenever the position is (given an observer)", "N")]:
+                        ("R08.8", "distance stored whenever the position is (given an observer)", "N"),
+                        ("R08.9", "a slot's fields and its receive time are written together, whatever the row held before", "N")]:
         rep.rule(rid, txt, k)
     out = k2_results(facts, tier)
     results = out["results"]
     P = sel(results, "P")
     if len(P) < 8:
         raise Broken("C08: position contexts missing")
-    n1 = n2 = n3 = n4 = n8 = 0
+    n1 = n2 = n3 = n4 = n8 = n9 = 0
     for r in P:
         if not accepted(r):
             raise Broken("C08: %s not accepted" % r.ctx["label"])
@@ -105,6 +108,11 @@ def run(facts, rep, tier):
                     why.append("no time-window test")
                 rng = [t for t, tr in atoms(pc, "in_range") if tr]
                 bounds = sorted((t[2], t[3]) for t in rng)
+                # `x.abs() <= K` is the same test as `(-K..=K).contains(&x)`
+                for t, tr in atoms(pc, "Le"):
+                    if tr and isinstance(t[1], tuple) and t[1] and t[1][0] == "abs" and isinstance(t[2], (int, float)):
+                        bounds.append((-float(t[2]), float(t[2])))
+                bounds = sorted(bounds)
                 if bounds != [(-180.0, 180.0), (-90.0, 90.0)]:
                     why.append("range tests %s (expected lat [-90,90], lon [-180,180])" % bounds)
                 dis = [t for t, tr in atoms(pc, "Eq") if tr and term_find(t, "discr")]
@@ -194,6 +202,40 @@ def run(facts, rep, tier):
         rep.oblige(ok, ("slot-time", lab))
         if not ok:
             rep.add(Finding("R08.3", "cpr_time slot store (%s path)" % path_, "context '%s': cpr_time[%d] := %s" % (lab, F, [repr(v)[:60] for _, v, _ in sts]), None))
+        # R08.9 slot coherence: the receive time of a slot is the receive time of the fields in it.  The three stores to
+        # slot F (fields 55-71, 72-88 and the time) happen under one and the same condition, and that condition does not
+        # look at what the row held before (a frame that repeats the stored fields still refreshes the slot's time; a frame
+        # whose fields are not stored must not refresh it)
+        n9 += 1
+        conds = {}
+        for pth, v, pc, ctl in r.stores:
+            if pth and pth[0][1] in ("cpr_lat", "cpr_lon", "cpr_time") and len(pth) == 2 and pth[1][0] == "index" and pth[1][1] == F:
+                conds.setdefault(pth[0][1], []).append((frozenset(pc), frozenset(ctl or ())))
+        why9 = []
+        if len(conds) == 3:
+            cs = {k: sorted(v, key=repr) for k, v in conds.items()}
+            if not (cs["cpr_lat"] == cs["cpr_lon"] == cs["cpr_time"]):
+                def _sh(c):
+                    return ["; ".join([show_term(t)[:60] + ("" if tr else " is false") for t, tr in sorted(pc_, key=repr)] +
+                                      ["ctl " + str(d) for d in sorted(map(str, ct_))][:4]) or "always" for pc_, ct_ in c]
+                why9.append("slot %d: fields stored %s / %s but time stored %s" % (F, _sh(cs["cpr_lat"]), _sh(cs["cpr_lon"]), _sh(cs["cpr_time"])))
+            pre = set()
+            for k, v in conds.items():
+                for pc_, ct_ in v:
+                    for d in ct_:
+                        if isinstance(d, tuple) and d and d[0] == "pre":
+                            pre.add(str(d[1]))
+                    for t, tr in pc_:
+                        if "pre(" in show_term(t):
+                            pre.add(show_term(t)[:60])
+            if pre:
+                why9.append("whether slot %d is written depends on what the row held before (%s)" % (F, ", ".join(sorted(pre)[:4])))
+        rep.oblige(not why9, ("slot-coherent", lab))
+        if why9:
+            rep.add(Finding("R08.9", "CPR slot fields and slot time not written together (%s path)" % path_,
+                            "context '%s': %s - the 10 s window is then measured from a time that is not the receive time of the stored fields"
+                            % (lab, "; ".join(why9)), None))
+    rep.instances("R08.9", n9, floor=8)
     rep.instances("R08.1", n1, floor=30)
     rep.instances("R08.2", n2, floor=8)
     rep.instances("R08.3", n3, floor=8)
